@@ -310,6 +310,9 @@ pub struct Monitor<'a>
     /// A garbage-collection pass is in progress (only drop events have been seen since its hook): the pass drains the
     /// channel until it is empty, so whatever the drops of this pass release is collected by the same pass.
     gc_open: bool,
+    /// System-state constructions seen, and the construction each actor's state belongs to.
+    state_builds: u32,
+    state_ordinals: HashMap<ActorId, i64>,
     pos: usize,
     out: MonitorOut,
     /// Removal tracking is active for a component once any removal reactor for it has been registered.
@@ -348,7 +351,7 @@ impl<'a> Monitor<'a>
             cfg, actors, ents,
             regs: Vec::new(), groups: Vec::new(), tokens: Vec::new(), res: 0,
             obls: Vec::new(), frames: Vec::new(), runners: Vec::new(), payloads: HashMap::new(), announced: Default::default(), dropped_before_apply: Default::default(), polled: Vec::new(), fifos: HashMap::new(),
-            issued: HashMap::new(), pending: Pending::None, root_sub_boundary: 0, root_cmd: None, root_cmd_pos: 0, teardown: false, gc_open: false,
+            issued: HashMap::new(), pending: Pending::None, root_sub_boundary: 0, root_cmd: None, root_cmd_pos: 0, teardown: false, gc_open: false, state_builds: 0, state_ordinals: HashMap::new(),
             pos: 0,
             out: MonitorOut{
                 violations: Vec::new(), state_hashes: Vec::new(), transitions: 0, runs: 0, postponed: 0, aborted: 0,
@@ -2110,8 +2113,36 @@ impl<'a> Monitor<'a>
                 }
             }
             TEv::Quiescent{ snap, live } => self.on_quiescent(snap, live),
-            TEv::Value{ what, .. } =>
+            TEv::Value{ what, value } =>
             {
+                if what == "state-built"
+                {
+                    // every registered system builds its state once: never more constructions than systems
+                    self.state_builds += 1;
+                    let known = self.actors.len() as u32;
+                    if self.state_builds > known
+                    {
+                        self.viol("C13", "R-state", "state-built-more-than-once".into(),
+                            format!("system state was constructed {} times for at most {} registered systems", self.state_builds, known));
+                    }
+                }
+                if let Some(a) = what.strip_prefix("state-ordinal:")
+                {
+                    if let Ok(a) = a.parse::<ActorId>()
+                    {
+                        match self.state_ordinals.get(&a).copied()
+                        {
+                            None => { self.state_ordinals.insert(a, *value); }
+                            Some(o) if o != *value =>
+                            {
+                                self.viol("C13", "R-state", "state-recreated".into(),
+                                    format!("actor {a} runs on system state built as construction #{value}, its earlier runs used construction #{o}"));
+                                self.state_ordinals.insert(a, *value);
+                            }
+                            _ => {}
+                        }
+                    }
+                }
                 if what == "app-reactor-not-spawned"
                 {
                     self.viol("C13", "R-state", "registration-without-own-system".into(),
